@@ -11,7 +11,16 @@ reply class of every command, and for every DATA answered 250 the committed enve
 the RCPTs answered 250 since it, in order); nothing is ever committed otherwise.
 
 Left out relative to the design: the session is always fed as one pipelined stream (no generated write boundaries / lock-step
-dialogue); RELAYCLIENT values are limited to unset, "" and two suffixes."""
+dialogue); RELAYCLIENT values are limited to unset, "" and two suffixes.
+
+Open finding (not in known-findings.txt, therefore excluded from generation by construction and counted as
+excluded_ip_literal_octet_over_255; reproduction in corpus/C08/findings/): `RCPT TO:<u@[127.0.0.257]>` (any octet n with
+n mod 256 giving a local address, e.g. [383.0.0.1]) is treated as the local address 127.0.0.1, rewritten to u@localiphost and
+accepted, although the domain is neither a local IP address nor listed in rcpthosts (ip_scan() has no range check).
+
+Slack that is counted: arguments outside the grammar; [0.0.0.0] and literals with leading zeros (local or not: either);
+localiphost substitution in the *sender* (documented for recipients only: either form); badmailfrom matches that differ in case
+only; address lengths 899..900; whether a refused MAIL discards the open transaction."""
 import os, json
 from lib import vlib, sandbox
 from props import smtp_common as M
@@ -26,6 +35,7 @@ RULE = ("One case = one configuration x one pipelined SMTP session of <= 14 comm
 ASSUMPTIONS = ["the intended address of an argument is known by construction of the generator (grammar of DESIGN 5/C08); arguments outside the grammar only get the invariants",
                "127.0.0.1 is a local address of the test host (verified at run time from Python), the 'foreign' literal is chosen outside the host's addresses",
                "reply classes (first digit) are compared, exact codes are not documented",
+               "the Hypothesis part runs in fixed-size rounds with seeds derived from VERIF_SEED; the number of rounds (between a fixed minimum and maximum) adapts to the load of the machine, no verdict depends on time",
                "checks run as root in the sandbox; identity is virtualised by the LD_PRELOAD shim"]
 
 KNOWN_SIGS = ("ip_literal_octet_over_255",)
@@ -443,7 +453,7 @@ def regress_scenarios():
 
 
 def worker(job):
-    tree, wid, seed, nex, fixed, listed = job
+    tree, wid, seed, plan, fixed, listed = job
     LISTED.clear()
     LISTED.update(listed)
     stats = vlib.Stats()
@@ -461,8 +471,7 @@ def worker(job):
 
     def runfn(sc, stats):
         return run_case(r, sc, stats, local_ips)
-    if nex:
-        vlib.hyp_search(scenario_st(foreign), runfn, nex, seed, stats)
+    M.search_rounds(scenario_st(foreign), runfn, seed, stats, plan)
     return stats
 
 
@@ -475,8 +484,8 @@ def run(ctx):
     if getattr(ctx, "only", None) and "hyp" in ctx.only:      # debugging / sensitivity of the random generator alone
         fixed = []
     nw = vlib.NCPU
-    per = ctx.n(4000, 48000)
-    jobs = [(tree, i, vlib.subseed(ctx.seed, "c08", i), per, fixed[i::nw], listed) for i in range(nw)]
+    plan = M.round_plan(ctx)
+    jobs = [(tree, i, vlib.subseed(ctx.seed, "c08", i), plan, fixed[i::nw], listed) for i in range(nw)]
     ctx.stats.merge(vlib.run_workers(worker, jobs))
     for sig, n in list(ctx.stats.known_hits.items()):
         ctx.stats.known_hits[sig] = n - 1
